@@ -191,7 +191,8 @@ def harnesses(tier):
         kinds = ["f", "i", "T", "b", "D", "U", "O", "td", "us"]
         for k in kinds:
             for mode in ("aggregate", "count", "split", "modify", "helper"):
-                hs.append(Group(mode, [k], 4))
+                # the helper mode enumerates every helper per layout: strings cost 35 min at four rows, three rows there
+                hs.append(Group(mode, [k], 3 if mode == "helper" and k in ("T", "U") else 4))
         for a, b in [("f", "f"), ("f", "i"), ("i", "b"), ("T", "f"), ("D", "T"), ("b", "f")]:
             for mode in ("aggregate", "count", "split", "modify"):
                 hs.append(Group(mode, [a, b], 3))
